@@ -94,7 +94,7 @@ func (c08) Gen(rng *rand.Rand, tier string, i int) *sim.Scenario {
 			sc.Calls = []sim.Call{{Entry: "fetcher_get_ip", Repeat: between(rng, 1, 2), GapUs: int64(between(rng, 0, 3000000))}}
 			genStallProviders(rng, sc, false)
 		default:
-			n := between(rng, 1, 6)
+			n := pick(rng, between(rng, 1, 6), between(rng, 5, 16), between(rng, 17, 40))
 			var addrs []string
 			for a := 0; a < n; a++ {
 				addrs = append(addrs, fmt.Sprintf("198.18.%d.%d", a, 1+rng.IntN(200)))
@@ -143,6 +143,14 @@ func genStallDNS(rng *rand.Rand, sc *sim.Scenario) {
 	}
 	add(bareTarget(sc.Calls[0].Target))
 }
+
+// The property's bound includes the lookup timeouts as additive terms: one reverse-DNS timeout (5 s,
+// the property's anchor) however many addresses are resolved, and the per-provider budget (2 s) times
+// the five providers for the public address. Half a second of slack each.
+const (
+	lookupBound   = 5*time.Second + 500*time.Millisecond
+	publicIPBound = 5*2*time.Second + 500*time.Millisecond
+)
 
 func ms(n int) time.Duration { return time.Duration(n) * time.Millisecond }
 
@@ -222,15 +230,15 @@ func (c08) Check(out *sim.Outcome, ri *RunInfo) []Violation {
 			}
 			bound = stagger + rb
 			if c.PublicIP {
-				bound += 30 * time.Second
+				bound += publicIPBound
 			}
 			if c.ReverseDNS {
-				bound += 10 * time.Second
+				bound += lookupBound
 			}
 		case "get_public_ip", "fetcher_get_ip":
-			bound = 30*time.Second*time.Duration(max(c.Repeat, 1)) + time.Duration(max(c.Repeat, 1))*time.Duration(c.GapUs)*time.Microsecond
+			bound = publicIPBound*time.Duration(max(c.Repeat, 1)) + time.Duration(max(c.Repeat, 1))*time.Duration(c.GapUs)*time.Microsecond
 		case "reverse_dns":
-			bound = 10 * time.Second
+			bound = lookupBound
 		default:
 			continue
 		}
@@ -339,7 +347,7 @@ func (c18) Gen(rng *rand.Rand, tier string, i int) *sim.Scenario {
 			for p := 0; p < 5; p++ {
 				var script []string
 				for k := 0; k < 8; k++ {
-					script = append(script, pick(rng, fmt.Sprintf("status:200:203.0.113.%d", 1+p*10+k), "status:404:no", "status:200:junk", fmt.Sprintf("status:200:203.0.113.%d", 100+p*10+k)))
+					script = append(script, pick(rng, fmt.Sprintf("status:200:203.0.113.%d", 1+p*10+k), fmt.Sprintf("status:%d:no", clientStatus(rng)), "status:200:junk", fmt.Sprintf("status:200:203.0.113.%d", 100+p*10+k)))
 				}
 				sc.HTTP = append(sc.HTTP, sim.HTTPPlan{Provider: p, Script: script})
 			}
@@ -350,14 +358,30 @@ func (c18) Gen(rng *rand.Rand, tier string, i int) *sim.Scenario {
 		for p := 0; p < 5; p++ {
 			var script []string
 			for k := 0; k < 10; k++ {
-				script = append(script, pick(rng, "refuse", "closeEarly", "status:500:oops", "status:503:", fmt.Sprintf("status:200:198.51.100.%d", 1+p), fmt.Sprintf("status:500:198.51.100.%d", 50+p),
-					"status:404:nope", "status:400:bad", "status:200:not-an-ip", "status:200:", fmt.Sprintf("status:200:  2001:db8::%d \n", 1+p), "stallBeforeHeaders", "status:302:moved"))
+				script = append(script, pick(rng, "refuse", "closeEarly", fmt.Sprintf("status:%d:oops", serverStatus(rng)), fmt.Sprintf("status:%d:", serverStatus(rng)), fmt.Sprintf("status:200:198.51.100.%d", 1+p), fmt.Sprintf("status:%d:198.51.100.%d", serverStatus(rng), 50+p),
+					fmt.Sprintf("status:%d:nope", clientStatus(rng)), fmt.Sprintf("status:%d:198.51.100.%d", clientStatus(rng), 150+p), "status:200:not-an-ip", "status:200:", fmt.Sprintf("status:200:  2001:db8::%d \n", 1+p), "stallBeforeHeaders", "status:302:moved"))
 			}
 			sc.HTTP = append(sc.HTTP, sim.HTTPPlan{Provider: p, Script: script})
 		}
 		sc.Note = "family=providers"
 	}
 	return sc
+}
+
+// clientStatus draws any status of the 4xx class (the well-known ones more often), serverStatus any
+// of the 5xx class: the property speaks of classes, not of particular codes.
+func clientStatus(rng *rand.Rand) int {
+	if chance(rng, 0.5) {
+		return pick(rng, 400, 401, 403, 404, 405, 408, 409, 410, 418, 421, 425, 429, 431, 451, 499)
+	}
+	return 400 + rng.IntN(100)
+}
+
+func serverStatus(rng *rand.Rand) int {
+	if chance(rng, 0.5) {
+		return pick(rng, 500, 501, 502, 503, 504, 507, 511, 599)
+	}
+	return 500 + rng.IntN(100)
 }
 
 func scriptOutcome(s string) (kind string, ip string) {
